@@ -1,3 +1,4 @@
+import importlib
 import inspect
 import sys
 import typing
@@ -269,6 +270,9 @@ def _getcls(ref):
     module, *parts = ref.split(".")
     curr = __import__(module)
     for part in parts:
+        if not hasattr(curr, part) and inspect.ismodule(curr):
+            # A submodule that importing the package did not load
+            importlib.import_module(f"{curr.__name__}.{part}")
         curr = getattr(curr, part)
     return curr
 
